@@ -34,6 +34,20 @@
                      types): intended = `establish_session` raises NotSupportedError before Get
                      Session Challenge; as shipped = `None` is encoded as type 0 ("none", which
                      the BMC did not offer) in Get Session Challenge.
+  * `resetSession` — the caller's `Session` object outlives a session: `sid`, `sequence_number`
+                     and `activated` are whatever the previous `establish_session` / requests /
+                     `close_session` on the same object left behind (a session that was lost — its
+                     Close Session failed or was never sent — leaves `activated = True`).  Intended =
+                     `establish_session` starts by clearing the three (`resetSess`); as shipped =
+                     only `self._session` is reset, so Activate Session is packed with the stale
+                     sequence number (and consumes one when `activated` is stale), and a handshake
+                     that then fails at Activate Session leaves an "activated" session object
+                     holding the TEMPORARY id, for which the clean-up `close_session()` sends Close
+                     Session.
+
+  `establish` = `handshake ∘ resetSess`: `handshake` is the body of `establish_session` after
+  those first assignments; the client state it starts from is the one the HISTORY of earlier
+  calls on the same `Rmcp` / `Session` objects produced (`runOps`).
 -/
 import PyIpmi.Model.RmcpWire
 namespace PyIpmi.Session
@@ -102,6 +116,7 @@ structure Cfg where
   maxRetries : Nat := 0    -- `Rmcp(max_retries=…)`
   closeGuard : Bool := true    -- `close_session`: `if self._session is None or …: return` (false: pinned tree)
   noAuthRaises : Bool := true  -- `establish_session`: NotSupportedError when no type is offered (false: pinned tree)
+  resetSession : Bool := true  -- `establish_session`: session.activated / sid / sequence_number cleared first (false: pinned tree)
   deriving Repr
 
 structure Client where
@@ -296,8 +311,14 @@ def estabAuthCap {σ : Type} (md5 : List Nat → List Nat) (peer : σ → List N
     | _ => ⟨p2, c1, sent1, .decodingError⟩
   | (p2, c1, s1, e) => ⟨p2, c1, sent0 ++ tagAll .authCap s1, e⟩
 
-/-- `Rmcp.establish_session(session)`: 0 - ping, then the steps above -/
-def establish {σ : Type} (md5 : List Nat → List Nat) (peer : σ → List Nat → σ × Option (List Nat))
+/-- the first assignments of `Rmcp.establish_session(session)` to the caller's Session object:
+nothing of an earlier session is carried into this handshake (`cfg.resetSession`; the pinned tree
+leaves the object as it is) -/
+def resetSess (cfg : Cfg) (c0 : Client) : Client :=
+  if cfg.resetSession then { c0 with s := { c0.s with sid := 0, seq := 0, activated := false } } else c0
+
+/-- `Rmcp.establish_session(session)` from `self._session = None` on: 0 - ping, then the steps above -/
+def handshake {σ : Type} (md5 : List Nat → List Nat) (peer : σ → List Nat → σ × Option (List Nat))
     (cfg : Cfg) (p0 : σ) (c0 : Client) : Result σ :=
   let c0 : Client := { c0 with attached := false }
   match ping peer p0 with
@@ -305,6 +326,12 @@ def establish {σ : Type} (md5 : List Nat → List Nat) (peer : σ → List Nat 
   | (p1, s0, .decodingError) => ⟨p1, c0, tagAll .ping s0, .decodingError⟩
   | (p1, s0, .pyError n) => ⟨p1, c0, tagAll .ping s0, .pyError n⟩
   | (p1, s0, _) => ⟨p1, c0, tagAll .ping s0, .pyError "unreachable"⟩
+
+/-- `Rmcp.establish_session(session)` on objects in ANY state `c0` (fresh, or whatever earlier
+sessions, failed handshakes and closes left behind) -/
+def establish {σ : Type} (md5 : List Nat → List Nat) (peer : σ → List Nat → σ × Option (List Nat))
+    (cfg : Cfg) (p0 : σ) (c0 : Client) : Result σ :=
+  handshake md5 peer cfg p0 (resetSess cfg c0)
 
 /-- `Rmcp.send_and_receive_raw(target, lun, netfn, raw)` with `raw = cmd :: data` -/
 def request {σ : Type} (md5 : List Nat → List Nat) (peer : σ → List Nat → σ × Option (List Nat))
@@ -362,6 +389,35 @@ def cleanupClose {σ : Type} (md5 : List Nat → List Nat) (peer : σ → List N
     (cfg : Cfg) (r : Result σ) : Result σ × Outcome (List Nat) :=
   let r3 := close md5 peer cfg r.peer r.client
   (⟨r3.peer, r3.client, r.sent ++ r3.sent, r.outcome⟩, r3.outcome)
+
+/-! ### histories: any sequence of calls on the same `Rmcp` / `Session` objects -/
+
+/-- one call of the public API on the interface; every call has its own configuration (the
+application may change user, privilege level, `max_retries` between two sessions; the pinned value
+of `random.randrange` differs from handshake to handshake) -/
+inductive Op where
+  | open (cfg : Cfg)                    -- `establish_session(session)`
+  | requests (cfg : Cfg) (n : Nat)      -- `n` × `send_and_receive_raw` (stops at the first failure)
+  | close (cfg : Cfg)                   -- `close_session()`
+  deriving Repr
+
+/-- run one call, whatever its outcome (an exception is caught by the caller, who goes on) -/
+def runOp {σ : Type} (md5 : List Nat → List Nat) (peer : σ → List Nat → σ × Option (List Nat))
+    (op : Op) (p : σ) (c : Client) : Result σ :=
+  match op with
+  | .open cfg => establish md5 peer cfg p c
+  | .requests cfg n => requestN md5 peer cfg n p c
+  | .close cfg => close md5 peer cfg p c
+
+/-- a history: the calls one after the other on the same objects, against the same peer;
+returns the peer and the client afterwards and everything that was sent, call by call -/
+def runOps {σ : Type} (md5 : List Nat → List Nat) (peer : σ → List Nat → σ × Option (List Nat)) :
+    List Op → σ → Client → σ × Client × List Sent
+  | [], p, c => (p, c, [])
+  | op :: ops, p, c =>
+    let r := runOp md5 peer op p c
+    let (p', c', ss) := runOps md5 peer ops r.peer r.client
+    (p', c', r.sent :: ss)
 
 /-- a peer that plays a fixed script of replies (`none` = silence), one per datagram -/
 def scripted : List (Option (List Nat)) → List Nat → List (Option (List Nat)) × Option (List Nat)
